@@ -297,6 +297,22 @@ def gen_cases(rng, tier):
     cases.append({"kind": "roundtrip", "regime": "corner", "values": [[1.0, 2.0]], "labels": None,
                   "class_values": [], "name": "p", "comment": None, "equal_length": False,
                   "series_length": 0})
+    # outside the quantifier (multivariate flag on one column, options that contradict each other):
+    # no oracle, but the model must predict what the real writer + loader do
+    base = {"kind": "roundtrip", "regime": "corner", "name": "p", "comment": None,
+            "equal_length": False, "series_length": -1}
+    for extra in (
+            {"values": [[1.5, 2], [3, 4]], "labels": ["a", "B"], "class_values": ["a", "B"],
+             "univariate": False},
+            {"values": [[1.5, 2], [3, 4]], "labels": None, "class_values": [], "univariate": False},
+            {"values": [[1, 2], [3, 4]], "labels": ["a", "b"], "class_values": []},
+            {"values": [[1, 2], [3, 4]], "labels": None, "class_values": ["a", "b"]},
+            {"values": [[1, 2], [3, 4]], "labels": None, "class_values": [7, 8]},
+            {"values": [[1, 2], [3, 4]], "labels": [], "class_values": [7.5, 8.5]},
+            {"values": [[1, 2, 3]], "labels": ["x"], "class_values": ["not-declared"]},
+            {"values": [[0.5], [0.25]], "labels": ["A"], "class_values": ["A", "A"],
+             "equal_length": True, "series_length": 1}):
+        cases.append(dict(base, **extra))
     cases += _ts_variants()
     cases += _flat_variants()
     heavy = []
@@ -472,7 +488,8 @@ def run_impl(case):
             write_dataframe_to_tsfile(
                 X, d, problem_name=case["name"], class_label=case["labels"],
                 class_value_list=case["class_values"], equal_length=case["equal_length"],
-                series_length=case["series_length"], comment=case["comment"])
+                series_length=case["series_length"], comment=case["comment"],
+                univariate=case.get("univariate", True))
         except (ValueError, IndexError) as e:
             out["write_err"] = type(e).__name__
             return out
@@ -507,7 +524,11 @@ def run_impl(case):
         loaded, lines = {}, {}
         for fmt in case["fmts"]:
             p = os.path.join(repo, DATA, name, "%s_TRAIN.%s" % (name, fmt))
-            X, y = fn[fmt](p)
+            try:
+                X, y = fn[fmt](p)
+            except Exception as e:
+                return {"err": "%s loader on %s: %s: %s" % (fmt, os.path.basename(p),
+                                                            type(e).__name__, str(e)[:120])}
             loaded[fmt] = (X, [str(v) for v in y])
             lines[fmt] = _excerpt(p, fmt, max_tokens=520)[0]
         out = {"shape": {}, "labels": {}, "pairs": {}, "lines": lines}
@@ -553,15 +574,23 @@ def run_impl(case):
         out = {}
         for split in (None, "train", "test"):
             key = str(split).lower()
-            X, y = f(split=split, return_X_y=True)
-            out["xy_" + key] = {"fp": [_row_fp(X, i) for i in range(len(X))],
-                                "y": [str(v) for v in y], "columns": [str(c) for c in X.columns]}
-            F = f(split=split, return_X_y=False)
-            cols = [str(c) for c in F.columns]
-            Fx = F[[c for c in F.columns if str(c) != "class_val"]]
-            out["fr_" + key] = {"fp": [_row_fp(Fx, i) for i in range(len(F))],
-                                "y": [str(v) for v in F["class_val"]] if "class_val" in cols else None,
-                                "columns": cols}
+            try:
+                X, y = f(split=split, return_X_y=True)
+                out["xy_" + key] = {"fp": [_row_fp(X, i) for i in range(len(X))],
+                                    "y": [str(v) for v in y], "columns": [str(c) for c in X.columns]}
+            except Exception as e:
+                out["err"] = "split=%r return_X_y=True: %s: %s" % (split, type(e).__name__, str(e)[:120])
+                return out
+            try:
+                F = f(split=split, return_X_y=False)
+                cols = [str(c) for c in F.columns]
+                Fx = F[[c for c in F.columns if str(c) != "class_val"]]
+                out["fr_" + key] = {"fp": [_row_fp(Fx, i) for i in range(len(F))],
+                                    "y": [str(v) for v in F["class_val"]] if "class_val" in cols else None,
+                                    "columns": cols}
+            except Exception as e:
+                out["err"] = "split=%r return_X_y=False: %s: %s" % (split, type(e).__name__, str(e)[:120])
+                return out
         name = LOADER_NAME[case["loader"]]
         for part in ("TRAIN", "TEST"):
             X, y = load_from_tsfile_to_dataframe(
@@ -598,8 +627,8 @@ def oracle(case, out):
             return None if must_reject else "roundtrip-write-rejected: %s" % out["write_err"]
         if must_reject:
             return None
-        if bool(case["labels"]) != bool(cv):
-            return None  # inconsistent options: outside the quantifier, correspondence only
+        if bool(case["labels"]) != bool(cv) or not case.get("univariate", True):
+            return None  # contradictory options / multivariate flag: correspondence only
         if out["loaded"] is None:
             return "roundtrip-written-file-does-not-load: %s" % out.get("load_err")
         ld = out["loaded"]
@@ -638,11 +667,18 @@ def oracle(case, out):
             return "bundled-file-does-not-load: %s %s" % (case["file"], out.get("load_err"))
         return None
     if k == "formats":
+        if "err" in out:
+            return "formats-loader-raised: %s" % out["err"]
         fm = case["fmts"]
         sh = out["shape"]
         for f in fm[1:]:
             if sh[f] != sh[fm[0]]:
-                return "formats-shape: %s %s vs %s %s" % (fm[0], sh[fm[0]][:2], f, sh[f][:2])
+                a, b = sh[fm[0]], sh[f]
+                bad = [i for i in range(min(len(a[2]), len(b[2]))) if a[2][i] != b[2][i]][:1]
+                return "formats-shape: %s %s vs %s %s%s" % (
+                    fm[0], a[:2], f, b[:2],
+                    ", series lengths of instance %d: %s vs %s" % (bad[0], a[2][bad[0]], b[2][bad[0]])
+                    if bad else "")
         ref = [s.lower() for s in out["labels"][fm[0]]]
         for f in fm[1:]:
             if [s.lower() for s in out["labels"][f]] != ref:
@@ -656,6 +692,8 @@ def oracle(case, out):
                                                        r["values"], r["first"]))
         return None
     if k == "split":
+        if "err" in out:
+            return "split-loader-raised: %s" % out["err"]
         tr, te, no = out["xy_train"], out["xy_test"], out["xy_none"]
         if no["fp"] != tr["fp"] + te["fp"]:
             return "split-none-is-not-train-then-test: instances (%d vs %d + %d)" % (
@@ -759,8 +797,9 @@ def _impl_flat(ld):
 
 
 def _wopts(case, out):
-    return "(mkW %s false true %s %s %s %s)" % (
-        _s(case["name"]), _sl([str(x) for x in (case["labels"] or [])]),
+    return "(mkW %s false %s %s %s %s %s)" % (
+        _s(case["name"]), cbool(case.get("univariate", True)),
+        _sl([str(x) for x in (case["labels"] or [])]),
         cbool(case["equal_length"]), cz(case["series_length"]), _sl(out["wrapped"]))
 
 
@@ -791,11 +830,13 @@ def coq_case(case, out):
             return "CArffLines %s %s" % (_sl(lines), _impl_flat(out["loaded"]))
         return "CTsvLines %s %s" % (_sl(lines), _impl_flat(out["loaded"]))
     if k == "formats":
-        if sorted(case["fmts"]) != ["arff", "ts", "tsv"]:
+        if sorted(case["fmts"]) != ["arff", "ts", "tsv"] or "err" in out:
             return None
         ln = out["lines"]
         return "CFormats %s %s %s" % (_sl(ln["ts"]), _sl(ln["arff"]), _sl(ln["tsv"]))
     if k == "split":
+        if "err" in out:
+            return None
         # the Python oracle compares every instance; inside Coq the model's concatenation is run on
         # the first / last SPLIT_K instances of each part (and the same positions of split=None)
         ntr, nte = len(out["file_train"]["fp"]), len(out["file_test"]["fp"])
